@@ -88,6 +88,7 @@ def random_cfg(r, page_sizes=None, small=False):
         "with_view_trigger": r.random() < 0.3,
         "big_values": r.random() < 0.6,
         "wide_table": r.choice([0, 0, 0, 150, 300, 700]),
+        "index_boundary": r.random() < 0.25,
         "fragmenter": r.choice([None, None, (r.randint(17, 23), 3), (20, 3), (r.randint(25, 60), r.choice([1, 2, 3]))]),
     }
 
@@ -149,6 +150,28 @@ def build(path, cfg, r):
         con.execute("COMMIT")
         for i in range(1, min(nupd, per_leaf) + 1):
             con.execute("UPDATE frag SET b = substr(b, 1, ?) WHERE a = ?", (width - step, i))
+    if cfg.get("index_boundary"):
+        # index keys whose payload sizes sweep a window around x + k(u-4) (the index overflow thresholds), enough
+        # of them for the index to grow interior pages that carry such keys as well
+        u = cfg["page_size"]
+        x = ((u - 12) * 64 // 255) - 23
+        con.execute("CREATE TABLE ib (k TEXT)")
+        con.execute("CREATE INDEX ibi ON ib (k)")
+        tables["ib"] = (["k"], False)
+        indexes["ibi"] = ("ib", ["k"])
+        con.execute("BEGIN")
+        per = 2 if cfg["encoding"] == "UTF-8" else 1
+        for k in (0, 1, 2):
+            for d in range(-9, 6):
+                n = x + k * (u - 4) + d - 4
+                if n <= 0:
+                    continue
+                if per == 1 and n % 2:
+                    continue
+                chars = n if per == 2 else n // 2
+                for rep in range(per):
+                    con.execute("INSERT INTO ib VALUES (?)", (chr(97 + (d + 9 + rep) % 26) * chars,))
+        con.execute("COMMIT")
     if cfg["with_without_rowid"]:
         con.execute("CREATE TABLE w0 (k TEXT, k2 INTEGER, v BLOB, PRIMARY KEY (k, k2)) WITHOUT ROWID")
         wr["w0"] = ["k", "k2", "v"]
